@@ -64,16 +64,23 @@ impl Object {
                     }
 
                     if !child_valid_name {
-                        comps.push(Component::new_i(
-                            c.content
-                                .iter()
-                                .position(|r| {
-                                    let a = r.as_ref() as *const _ as *const ();
-                                    let b = child as *const _ as *const ();
-                                    std::ptr::eq(a, b)
-                                })
-                                .unwrap(),
-                        ));
+                        let position = c.content.iter().position(|r| {
+                            let a = r.as_ref() as *const _ as *const ();
+                            let b = child as *const _ as *const ();
+                            std::ptr::eq(a, b)
+                        });
+                        match position {
+                            Some(index) => comps.push(Component::new_i(index)),
+                            // held only in the named content, under a name that is not a valid
+                            // one (a malformed document): address it by that name all the same
+                            None => {
+                                let name = child
+                                    .downcast_ref::<Container>()
+                                    .and_then(|cc| cc.name.clone())
+                                    .unwrap_or_default();
+                                comps.push(Component::new(&name));
+                            }
+                        }
                     }
 
                     container = c.get_object().get_parent();
